@@ -518,6 +518,90 @@ end
 def csd (destS : Sp) (dest : St) (srcS : Sp) (src : St) : St × CopyRes :=
   csdS destS.name (copyState destS) (csdBlk destS) srcS src dest
 
+/-! ### getCommonSubspaces -/
+
+mutual
+/-- names of the nodes `StateSpaceIncludes`' breadth-first walk visits (genuine compound nodes are descended into) -/
+def spNames : Sp → List Nat
+  | .compound nm cs => nm :: spNamesL cs
+  | .real nm _ => [nm]
+  | .so2 nm => [nm]
+  | .so3 nm => [nm]
+  | .time nm => [nm]
+  | .discrete nm => [nm]
+  | .wrapper nm _ => [nm]
+def spNamesL : List Sp → List Nat
+  | [] => []
+  | c :: cs => spNames c ++ spNamesL cs
+end
+
+/-- `StateSpaceIncludes(self, other)` -/
+def includes (self other : Sp) : Bool := (spNames self).contains other.name
+
+mutual
+/-- `StateSpaceCovers(self, other)`: included, or a compound all of whose components are covered (an empty compound
+is covered by anything) -/
+def covers (self : Sp) : Sp → Bool
+  | .compound nm cs => includes self (.compound nm cs) || coversL self cs
+  | .real nm n => includes self (.real nm n)
+  | .so2 nm => includes self (.so2 nm)
+  | .so3 nm => includes self (.so3 nm)
+  | .time nm => includes self (.time nm)
+  | .discrete nm => includes self (.discrete nm)
+  | .wrapper nm s => includes self (.wrapper nm s)
+def coversL (self : Sp) : List Sp → Bool
+  | [] => true
+  | c :: cs => covers self c && coversL self cs
+end
+
+/-- `CompareSubstateLocation`: larger dimension first, then larger name (the code compares the name *strings*; the
+model compares the numbers — only the order of the result depends on it, which the driver does not print) -/
+def cslLess (a b : Sp) : Bool :=
+  if dim a ≠ dim b then decide (dim a > dim b) else decide (a.name > b.name)
+
+/-- `std::set::insert` under `CompareSubstateLocation`: an element equivalent to a present one is dropped -/
+def cslInsert (x : Sp) : List Sp → List Sp
+  | [] => [x]
+  | y :: ys =>
+    if cslLess x y then x :: y :: ys
+    else if cslLess y x then y :: cslInsert x ys
+    else y :: ys
+
+/-- one pass of `for (it = begin …) for (jt = begin …) if (it != jt && Covers(it, jt)) { erase(jt); found = true;
+break; }` — after an erase the outer loop goes on with the element after `it` (it does not restart).  `done` are the
+elements already visited as `it` (still in the set, in set order), `it :: rest` those still to visit; the current set
+is `done ++ it :: rest`.  Returns the set after the pass and `found`. -/
+def erasePass : Nat → List Sp → List Sp → Bool → List Sp × Bool
+  | 0, done, rest, found => (done ++ rest, found)
+  | _ + 1, done, [], found => (done, found)
+  | fuel + 1, done, it :: rest, found =>
+    match (done ++ it :: rest).find? (fun jt => jt.name != it.name && covers it jt) with
+    | some jt =>
+      erasePass fuel (done.filter (fun x => x.name != jt.name) ++ [it]) (rest.filter (fun x => x.name != jt.name)) true
+    | none => erasePass fuel (done ++ [it]) rest found
+
+/-- the `while (found)` loop: passes until one erases nothing -/
+def eraseCovered : Nat → List Sp → List Sp
+  | 0, l => l
+  | fuel + 1, l =>
+    match erasePass (l.length + 1) [] l false with
+    | (l', true) => eraseCovered fuel l'
+    | (l', false) => l'
+
+/-- `destS->getCommonSubspaces(srcS, subspaces)`: names present in both substate maps, minus those covered by
+another one (the result as spaces of `destS`, in set order; the driver refuses top-level wrappers here) -/
+def commonSubspaces (destS srcS : Sp) : List Sp :=
+  let dm := substateLocs destS
+  let sm := substateLocs srcS
+  let inter := dm.foldl (fun acc e =>
+    match findSub sm e.1, findSub dm e.1 with
+    | some _, some chain =>
+      match nodeAt destS chain with
+      | some node => cslInsert node acc
+      | none => acc
+    | _, _ => acc) []
+  eraseCovered inter.length inter
+
 /-! ### signature -/
 
 mutual
